@@ -38,6 +38,10 @@ func init() {
 			{Units: `ebnf/parser\.ACTION$`, Kinds: `^(post|vacuity)$`},
 			{Units: `ebnf/lexer\.Lexer\.NextToken$`, Kinds: `^(post|inv-init|inv-pres|pre|term|vacuity)$`},
 			{Units: `ebnf/lexer\.Lexer\.evalDFA$`, Names: `#(post\[errmsg\]|post\[2\]|vacuity)`},
+			// positions are positions in the given source (the scanner is built over it, unread and untrimmed) and the
+			// wrappers add nothing between the source and the driver (no reading ahead of the first offending token)
+			{Units: `ebnf/lexer\.New$`},
+			{Units: `ebnf/parser\.Parser\.(ParseAndEvaluate|ParseAndBuildAST)(\$\d+)?$`, Kinds: `^(post|pre|provides|refine|frame|callsite|vacuity)$`},
 		},
 		Replay: replayLex,
 		Lemmas: []string{"L-PREFIX: an LALR(1) parser never shifts a token after which no sentence can continue; it may perform reductions before announcing the error, the look-ahead is unchanged by them (Aho et al. §4.7.4)"},
